@@ -11,6 +11,7 @@ of `cli_mat` (column `j` packed: bit `a` = `cli_mat[a, j]`); the columns are the
 -/
 import NumqiModel.Pauli
 import NumqiModel.SpF2
+import NumqiModel.Sim
 
 namespace Numqi.Clifford
 
@@ -389,6 +390,29 @@ def stepStale (st : St) : Op → St × Out
 def runStale : St → List Op → List Out
   | _, [] => []
   | st, op :: ops => let (st', out) := stepStale st op; out :: runStale st' ops
+
+/-! ### the dense operators the all-`n` theorems are about, over ℤ[i] (executed by the driver ops `opmat`, `paulimat`) -/
+
+/-- a one-qubit gate matrix of the model as a C03 operator (`GateKey.mat`, `H` unnormalised) -/
+def gateMat1G (key : GateKey) : Numqi.Mat 1 GInt := fun a b => key.mat.get a.toNat b.toNat
+
+/-- the operator C03 assigns to a recorded gate as `to_universal_circuit` exports it (`embed` of the one-qubit matrix;
+`ctrlEmbed` of X/Y/Z controlled by the first index), over ℤ[i] -/
+def gateOpG (n : Nat) (g : Gate) : Numqi.Mat n GInt :=
+  match g.idx with
+  | [q] => if hq : q < n then Numqi.embed (gateMat1G g.key) (fun _ : Fin 1 => ⟨q, hq⟩)
+           else fun x y => if Bits.beq x y then 1 else 0
+  | [q0, q1] =>
+    if hq : q0 < n ∧ q1 < n then
+      Numqi.ctrlEmbed (gateMat1G g.key.base) (fun i : Fin n => decide (i.val = q0)) (fun _ : Fin 1 => ⟨q1, hq.2⟩)
+    else fun x y => if Bits.beq x y then 1 else 0
+  | _ => fun x y => if Bits.beq x y then 1 else 0
+
+/-- entry of C08's matrix of a binary Pauli, over ℤ[i] -/
+def pauliEntG (n : Nat) (p : PauliB) (b' b : Bits n) : GInt :=
+  match (toPauli n p).matExp b' b with
+  | some k => GInt.iPow k
+  | none => 0
 
 /-! ### the F2 random generators (`numqi/random/_spf2.py`): deterministic post-processing of the raw draws -/
 
